@@ -442,6 +442,13 @@ func (p c10) bytesCase(c *fw.Case) {
 		if r.IntN(3) == 0 {
 			text = `{"properties":{"a":{"$ref":"#/$defs/d/` + kw + `/` + idx + `"}},"$defs":{"d":{"` + kw + `":[true,{"type":"integer"}]}}}`
 		}
+	case r.IntN(25) == 0:
+		// a leaf under 7..129 levels of single-branch applicators: one evaluation per level, whatever the verdict
+		nest, _ := gen.DeepNest(r)
+		text = gen.Text(nest)
+		if r.IntN(2) == 0 {
+			text = gen.Text(map[string]any{"properties": map[string]any{"a": nest}, "items": nest})
+		}
 	case k <= 1:
 		text = gen.Pick(r, suiteSchemas())
 	case k == 2:
